@@ -135,11 +135,13 @@ class Flows:
         # a global entry overridden by the service's own
         s.yaml_style = {"merge": r.random() < 0.5, "global": r.random() < 0.4, "override": r.random() < 0.3}
         nb = o.get("backends", r.choice([0, 1, 2, 2, 3, 4]))
-        self.backends = [s.ip(11 + i) + b":5070" for i in range(nb)]
+        bp = o.get("backend_port", 5070)
+        self.backends = [s.ip(11 + i) + b":%d" % bp for i in range(nb)]
         for b in self.backends:
-            s.udp_ep(b.split(b":")[0], 5070)
+            s.udp_ep(b.split(b":")[0], bp)
         tcp = 5061 if o.get("tcp", r.random() < 0.3) else 0
         self.li = s.listen(1, udp=5060, tcp=tcp, backends=self.backends, dyn=o.get("dyn", False),
+                           dynport=o.get("dynport"), dyn_first=o.get("dyn_first", False),
                            no_received=o.get("no_received", r.choice([None, None, True, False])),
                            must_rr=o.get("must_rr", r.random() < 0.3))
         self.l2 = None
@@ -262,7 +264,7 @@ class Flows:
             if k == 0 and b";" not in uri and b"?" not in uri:
                 v = uri
             elif k == 1:
-                v = b"\"A. User-1\" <" + uri + b">"
+                v = r.choice([b"\"A. User-1\" <", b"\"A. User-1\" <", b"\"Smith; John\" <"]) + uri + b">"
             elif k == 2:
                 v = b"Alice <" + uri + (b";user=phone" if uri.startswith(b"sip:") else b"") + b">"
             else:
@@ -729,12 +731,16 @@ def membership_history(rng, block):
     only, in rotation), dialogs answered by a member (pinned to it), requests of a dialog whose backend has been removed
     (load-balanced again), answers coming from an address that is no member any more (no longer attributed)."""
     r = rng
+    # the named entry may stand before the static ones and use another port than they do: every entry keeps ITS OWN
+    # scheme and port when its addresses arrive
+    other_port = r.random() < 0.5
     o = {"backends": r.choice([0, 0, 1, 2]), "names": b"svc.example.com", "tcp": False, "two_listeners": False,
-         "routes": 0, "tcphops": False, "dyn": True}
+         "routes": 0, "tcphops": False, "dyn": True, "dyn_first": r.random() < 0.6,
+         "backend_port": 5072 if other_port else 5070, "dynport": b"5070"}
     f = Flows(r, block, o)
     s = f.s
     l = s.listens[f.li]
-    port = l["backends"][0].split(b":")[1] if l["backends"] else b"5070"
+    port = b"5070"
     pool = [s.ip(14 + i) + b":" + port for i in range(4)]
     for a in pool:
         s.udp_ep(a.split(b":")[0], int(port))
